@@ -269,4 +269,61 @@ def hashSuffix : Sig → Bytes
     [4, t, pa, ha, hashed.length / 256 % 256, hashed.length % 256] ++ hashed ++
       [4, 0xff, l / 16777216 % 256, l / 65536 % 256, l / 256 % 256, l % 256]
 
+-- version 2 / 3 signatures (signature_v3.go), as RPM's legacy signature tags and old keys carry them ---------------------
+structure SigV3 where
+  sigType : Nat
+  created : Nat
+  issuer : Nat
+  pubAlgo : Nat
+  hashAlgo : Nat
+  hashTag : Bytes
+  mpis : List MPI
+  deriving Repr, DecidableEq
+
+/-- `SignatureV3.parse`: version 2 or 3, hashed-material length 5, type, creation time, issuer key id, algorithms
+    (RSA, RSA sign-only, DSA only), hash prefix, MPIs -/
+def parseV3 : Bytes → R SigV3
+  | [] => .eof
+  | v :: r1 =>
+    if v < 2 ∨ v > 3 then .unsupported
+    else match r1 with
+      | [] => .eof
+      | l :: r2 =>
+        if l ≠ 5 then .unsupported
+        else match r2 with
+          | t :: c3 :: c2 :: c1 :: c0 :: r3 =>
+            if r3.length < 8 then .eof
+            else
+              let issuer := beNat (r3.take 8)
+              match r3.drop 8 with
+              | pa :: ha :: r4 =>
+                if !(pa = 1 || pa = 3 || pa = 17) then .unsupported
+                else if !hashKnown ha then .unsupported
+                else match r4 with
+                  | g0 :: g1 :: r5 =>
+                    match readMPIs (mpiCount pa) r5 with
+                    | .ok ms => .ok ⟨t, beNat [c3, c2, c1, c0], issuer, pa, ha, [g0, g1], ms⟩
+                    | .unsupported => .unsupported
+                    | .structural => .structural
+                    | .eof => .eof
+                  | _ => .eof
+              | _ => .eof
+          | _ => .eof
+
+/-- what `packet.Read` does with the body of a signature packet (tag 2): the first octet picks the reader -/
+inductive AnySig where
+  | v4 (s : Sig)
+  | v3 (s : SigV3)
+
+def readSigBody (body : Bytes) : R AnySig :=
+  match body with
+  | [] => .eof                       -- peekVersion fails
+  | v :: _ =>
+    if v < 4 then
+      match parseV3 body with
+      | .ok s => .ok (.v3 s) | .unsupported => .unsupported | .structural => .structural | .eof => .eof
+    else
+      match parsePacket body with
+      | .ok s => .ok (.v4 s) | .unsupported => .unsupported | .structural => .structural | .eof => .eof
+
 end WhatIs.PgpSig
